@@ -950,6 +950,11 @@ def cases(tier, seed):
     out.append(_case("offline", "DQN", s(), info_only=True))
     # the documented early stop in every loop that has one: a resumed population (>= 100 generations on record after a
     # few more) whose fitness is above the target, so the early-return path is really taken
+    # resumed (already trained) populations in the loops that had no directed case: the budget is counted on the agents'
+    # own step counters, not on what this call adds
+    out.append(_case("ma_on", "IPPO", s(), num_envs=2, learn_step=4, evo_steps=8, init_steps=[16, 8], gens=2))
+    out.append(_hpo(_case("ma_on", "IPPO", s(), num_envs=4, learn_step=4, evo_steps=8, init_steps=[24, 24, 24], pop=3, gens=2)))
+    out.append(_case("bandit", "NeuralUCB", s(), env_mode="bandit_f32", init_steps=[12, 0], gens=2))
     out.append(_case("offline", "CQN", s(), target=-1e9, steps_len=97, gens=6, evo_steps=3))
     out.append(_case("on", "PPO", s(), num_envs=2, learn_step=4, evo_steps=4, target=-1e9, steps_len=98, gens=5))
     out.append(_case("ma_off", "MADDPG", s(), num_envs=2, learn_step=2, evo_steps=4, target=-1e9, steps_len=97, gens=6))
